@@ -269,5 +269,5 @@ class MultipartDecoder:
 def safe_decode(src: Union[bytes, bytearray], charset: str) -> str:
     try:
         return src.decode(charset)
-    except (UnicodeDecodeError, LookupError):
+    except (ValueError, LookupError):
         return src.decode("latin-1")
